@@ -28,6 +28,12 @@ type c07ReviseProbe struct {
 	reviseCalled int
 }
 
+// the locked contract of the sector-roots requests holds one sector (an empty range is refused
+// before the revision is looked at)
+func (c *c07ReviseProbe) SectorRoots(types.FileContractID) []types.Hash256 {
+	return []types.Hash256{{7}}
+}
+
 func (c *c07ReviseProbe) ReviseContract(id types.FileContractID) (*contracts.ContractUpdater, error) {
 	c.reviseCalled++
 	return nil, fmt.Errorf("stop here")
@@ -69,7 +75,7 @@ func TestVerifC07V2(t *testing.T) {
 		var costs rhp2.RPCCost
 		switch kind {
 		case "roots":
-			costs = settings.RPCSectorRootsCost(0, 0)
+			costs = settings.RPCSectorRootsCost(0, 1)
 		case "read":
 			costs, _ = settings.RPCReadCost(readSections, false)
 		case "write":
@@ -179,6 +185,9 @@ func TestVerifC07V2(t *testing.T) {
 		case "no-outputs":
 			c.ex.valid, c.ex.missed, c.vs, c.ms = nil, nil, nil, nil
 		}
+		if kind == "roots" {
+			c.ex.size = rhp2.SectorSize
+		}
 		c.desc = kind + " " + p
 		em.Count("rpc:" + kind)
 		em.Count("perturbation:" + p)
@@ -204,7 +213,7 @@ func TestVerifC07V2(t *testing.T) {
 			}()
 			switch kind {
 			case "roots":
-				req := &rhp2.RPCSectorRootsRequest{RevisionNumber: c.num, ValidProofValues: c.vs, MissedProofValues: c.ms, Signature: sig}
+				req := &rhp2.RPCSectorRootsRequest{RootOffset: 0, NumRoots: 1, RevisionNumber: c.num, ValidProofValues: c.vs, MissedProofValues: c.ms, Signature: sig}
 				if rt.WriteRequest(rhp2.RPCSectorRootsID, req) != nil {
 					return
 				}
